@@ -7,7 +7,7 @@ from . import common
 from .common import viol
 
 ID = "C10"
-RUNS = {"quick": 1600, "thorough": 60000}
+RUNS = {"quick": 1600, "thorough": 24000}
 REAL = common.REAL
 SIMULATED = common.SIMULATED
 ASSUMPTIONS = [
@@ -57,7 +57,7 @@ def _gen_marathon(rng, ctx):
             opl.append({"op": "toggle", "h": "h%d" % rng.randrange(3)})
         else:
             opl.append({"op": "batch", "ds": rng.sample(range(3), rng.randint(1, 3))})
-    return {"cfg": {"klass": "marathon"}, "descs": descs, "ops": opl}
+    return {"cfg": {"klass": "marathon", "fd_spare": 48}, "descs": descs, "ops": opl}
 
 
 def gen(rng, tier, ctx):
